@@ -215,4 +215,21 @@ theorem queued_connections_released_at_shutdown (cfg : Cfg) (ops : List Op) (hfi
 example : (run (init cfgEx) [.conn 1, .poll 9, .conn 0, .conn 1, .stop false, .poll 1]).finished = true ∧
     handled (run (init cfgEx) [.conn 1, .poll 9, .conn 0, .conn 1, .stop false, .poll 1]).log = [(0, 1), (1, 0), (2, 1)] := by decide
 
+/-- **Never silently discarded while the worker runs**: a worker that is not shutting down, has no
+`Stop` waiting and whose server is alive (`Running`) — in any state of the invariant, whatever the
+readiness scripts, restarts, arrivals, also after the accept thread's exit — takes connections out
+of its channel only to hand them to their service: a `poll` emits no `released` and no `dropped`
+event, and the worker is still `Running` afterwards (the only other outcome is the model's fuel
+fault, excluded by `poll_terminates`).  Connections are released or dropped only by a worker that
+has taken a `Stop` or whose server is gone. -/
+theorem never_discarded_while_running (s : St) (hg : Good s) (hr : Running s) (f : Nat) :
+    (Running (pollW f s) ∨ (pollW f s).fault = some .fuel) ∧
+    ∃ evs, (pollW f s).log = s.log ++ evs ∧ ∀ e ∈ evs, e.isDiscard = false :=
+  pollW_running f s hg hr
+
+example : Running (run (init cfgEx) [.conn 1, .conn 0, .poll 9, .closeChan, .poll 9]) := by
+  refine ⟨by decide, ?_, by decide, by decide⟩
+  have h : (run (init cfgEx) [.conn 1, .conn 0, .poll 9, .closeChan, .poll 9]).state = .available := by decide
+  intro t sf tx; rw [h]; exact fun hh => by cases hh
+
 end ActixNet.C07
